@@ -16,6 +16,17 @@ def Op.std : Op → Rel
   | .eq => .eq | .ne => .ne | .lt => .lt | .le => .le | .gt => .gt | .ge => .ge
 
 def at' (l : List R) (op : Op) : R := l.getD op.idx .other
+def atL (l : List (List String)) (op : Op) : List String := l.getD op.idx ["?"]
+
+/-- the supplied functions are partial and the payload classes differ: calling one raises -/
+def fnsRaise (c : Case) : Bool := c.partialFns && c.rhs != .same
+
+/-- what calling the supplied function `r` on the two payloads gives -/
+def expectedFn (c : Case) (r : Rel) : R := if fnsRaise c then .raised else r.eval c.a c.b
+
+/-- the one call a supplied function must receive: `(self.value, other.value)`, in this order -/
+def expectedCall (c : Case) (op : Op) : String :=
+  op.name ++ "(" ++ toString c.a ++ "," ++ toString c.b ++ ")"
 
 /-- every supplied function is the standard relation of its slot -/
 def consistent (c : Case) : Bool :=
@@ -43,29 +54,34 @@ def spec (c : Case) (o : Obs) : Bool :=
     o.ctor == .valueError
   else
     o.ctor == .ok && o.name == c.className && o.direct.length == 6 && o.ops.length == 6 &&
+    o.directCalls.length == 6 && o.opCalls.length == 6 &&
     (match c.rhs with
      | .foreign => true          -- the property is silent about operands that are not cmp_using objects
      | _ =>
        if comparable c then
-         -- through the supplied functions
+         -- through the supplied functions: called exactly once, on (self.value, other.value); its result
+         -- (or its exception) is the method's
          Op.all.all (fun op =>
            match slot c op with
            | some r =>
-             at' o.direct op == r.eval c.a c.b &&
-             (isBool (r.eval c.a c.b) → at' o.ops op == r.eval c.a c.b)
+             at' o.direct op == expectedFn c r &&
+             atL o.directCalls op == [expectedCall c op] &&
+             (isBool (expectedFn c r) → at' o.ops op == expectedFn c r)
            | none => true) &&
          -- `!=` negates the supplied `==`
          (match c.eq with
-          | some r => isBool (r.eval c.a c.b) → at' o.direct .ne == (r.eval c.a c.b).not
+          | some r => isBool (expectedFn c r) → at' o.direct .ne == (expectedFn c r).not
           | none => true) &&
          -- derived consistently: one order in, the same order out of all six operators
-         ((consistent c && c.eq.isSome && 0 < numOrd c) →
+         ((consistent c && c.eq.isSome && 0 < numOrd c && !fnsRaise c) →
            Op.all.all (fun op =>
              at' o.direct op == op.std.eval c.a c.b && at' o.ops op == op.std.eval c.a c.b))
        else
          -- type mismatch with require_same_type: NotImplemented from every method the class has, hence
          -- `==` False, `!=` True and TypeError from the orderings
          Op.all.all (fun op => defined c op → at' o.direct op == .NI) &&
+         -- … without ever calling a supplied function on the mismatched payloads
+         Op.all.all (fun op => atL o.directCalls op == [] && atL o.opCalls op == []) &&
          at' o.ops .eq == .F && at' o.ops .ne == .T &&
          [Op.lt, Op.le, Op.gt, Op.ge].all (fun op => at' o.ops op == .typeError))
 
